@@ -492,7 +492,15 @@ fn exec<'a>(
                     let fin: Vec<u8> = {
                         let w = world.borrow();
                         let s = &w.streams[hspec.stream];
-                        s.content[..s.delivered].to_vec()
+                        let mut f = s.content[..s.delivered].to_vec();
+                        // a search may end before its stream does (nothing can match any more):
+                        // what has arrived so far may then stop inside a character
+                        if variant == Variant::Charwise {
+                            if let Err(e) = std::str::from_utf8(&f) {
+                                f.truncate(e.valid_up_to());
+                            }
+                        }
+                        f
                     };
                     let mut sl = pma.open_slice(hspec.method, pma::Hay::plain(&fin));
                     while sl.next().is_some() {}
